@@ -3210,17 +3210,27 @@ func (p *Parser) parseSet() (*SetLiteral, error) {
 		return nil, newParseError(tokstr(tok, lit), []string{"("}, pos)
 	}
 	vals := make(map[interface{}]bool)
+	neg := false // the previous token was a minus sign
 	for {
 		tok, pos, lit = p.ScanIgnoreWhitespace()
-		if len(lit) != 0 {
-			switch tok {
-			case INTEGER, NUMBER:
-				val, _ := strconv.ParseFloat(lit, 64)
-				vals[val] = true
-			default:
+		switch tok {
+		case INTEGER, NUMBER:
+			val, _ := strconv.ParseFloat(lit, 64)
+			if neg {
+				val = -val
+			}
+			vals[val] = true
+		case STRING:
+			// the empty string is a member like any other
+			vals[lit] = true
+		case EOF:
+			return nil, newParseError(tokstr(tok, lit), []string{")"}, pos)
+		default:
+			if len(lit) != 0 {
 				vals[lit] = true
 			}
 		}
+		neg = tok == SUB
 		if tok == RPAREN {
 			break
 		}
